@@ -7,6 +7,7 @@ import (
 	"fmt"
 	"sort"
 	"strings"
+	"sync"
 	"testing"
 	"time"
 
@@ -31,37 +32,63 @@ type identity struct {
 }
 
 type e2eReq struct {
-	ID     int      `json:"id"` // identity index, -1 = request whose attribution the rule leaves open
-	How    string   `json:"how"`
-	Remote string   `json:"remote"`
-	XFF    []string `json:"xff,omitempty"`
-	XRI    string   `json:"xri,omitempty"`
-	Status int      `json:"status,omitempty"`
-	Fwd    int      `json:"forwarded"`
-	At     string   `json:"t"`
+	ID       int      `json:"id"` // identity index, -1 = request whose attribution the rule leaves open
+	How      string   `json:"how"`
+	Remote   string   `json:"remote"`
+	XFF      []string `json:"xff,omitempty"`
+	XRI      string   `json:"xri,omitempty"`
+	Status   int      `json:"status,omitempty"`
+	Aborted  bool     `json:"aborted,omitempty"`  // the response broke off after its head
+	Fwd      int      `json:"forwarded"`          // how often the request was handed to a backend
+	Backend  string   `json:"backend,omitempty"`  // behaviour of the backend that got it
+	Parallel bool     `json:"parallel,omitempty"` // part of a burst issued all at once
+	At       string   `json:"t"`
+	at       time.Duration
+	rid      string
 }
 
 type e2eEvent struct {
-	Adv string  `json:"adv,omitempty"`
-	Req *e2eReq `json:"req,omitempty"`
+	Adv  string  `json:"adv,omitempty"`
+	Flip string  `json:"backend_now,omitempty"`
+	Req  *e2eReq `json:"req,omitempty"`
 }
 
 const proxyHost = "192.0.2.1"
 
 var ambiguousXFF = []string{"", ",", ", 10.0.0.1", ",10.0.0.2", ", ,10.0.0.3"}
 
+func drawBackendKind(rt *rapid.T, label string) backendKind {
+	total := 0
+	for _, w := range backendKindWeights {
+		total += w
+	}
+	x := rapid.IntRange(0, total-1).Draw(rt, label)
+	for i, w := range backendKindWeights {
+		if x < w {
+			return backendKinds[i]
+		}
+		x -= w
+	}
+	return backendKinds[0]
+}
+
 func TestC09EndToEnd(t *testing.T) {
-	sub := lab.Sub("limiter-end-to-end", "rapid histories of 6..40 (quick) / 6..60 (thorough) events over {request, burst of requests, advance} against the real LoadBalancer.ServeHTTP with rate_limit enabled by configuration "+
-		"(max_tokens 1..5, refill 1..3 s, all five strategies, 1-3 scripted backends answering 200/404/500), virtual time, balancer built outside the bubble; "+
+	sub := lab.Sub("limiter-end-to-end", "rapid histories of 6..40 (quick) / 6..60 (thorough) events over {request, burst of requests issued one after the other or all at once (concurrently), advance, backend changes behaviour} "+
+		"against the real LoadBalancer.ServeHTTP with rate_limit enabled by configuration (max_tokens 1..5, refill 1..3 s, handler timeout 1/2/4 s, passive health checks on in a quarter of the cases, all five strategies), virtual time, balancer built outside the bubble; "+
+		"1-3 scripted backends, each with a drawn behaviour that can change during the history: answers 200/404/500, 103 then 200/500, connection refused, takes the request and then resets / closes without a response / stays silent until the response-header timeout / "+
+		"hangs until the handler timeout, aborts mid-body, stalls after the head or mid-body until the handler timeout; "+
 		"1..4 client identities whose address is an arbitrary header-safe string, each request conveys its identity by a drawn presentation: TCP peer with a drawn port, X-Real-IP, "+
 		"X-Forwarded-For alone / as first element of a list with irregular spacing / on two field lines / together with a contradicting X-Real-IP, behind a shared or colliding peer address; "+
-		"oracle: status 429 <=> no backend was reached, otherwise exactly one; B1/B2/B3 per attributed address (reference re-statement of 'first X-Forwarded-For element trimmed, else X-Real-IP, else RemoteAddr host'); "+
-		"requests with an empty first X-Forwarded-For element (rule silent) are only checked for 429 <=> not forwarded; "+
+		"oracle per request: answered 429 => handed to no backend, otherwise to exactly one (none only for the balancer's own 503 when passive checks ejected every backend); "+
+		"per attributed address (reference re-statement of 'first X-Forwarded-For element trimmed, else X-Real-IP, else RemoteAddr host') TWO histories: the requests not answered 429 (B1/B2/B3, whatever the backend then did) and the requests that reached a backend (B1); "+
+		"requests with an empty first X-Forwarded-For element (rule silent) are only checked per request; "+
 		"non-trivial = some identity was refused and admitted again after an advance AND was presented in at least two different ways")
 	sub.NontrivialFloor(0.30)
 	sub.Floor("multi-identity", 0.40)
-	lab.Assume("L1: a scripted http.RoundTripper stands in for http.Transport; limiter on + active health checks on is not hosted in L1 (the balancer is built outside the bubble)")
+	sub.Floor("refused-after-failed-exchange", 0.10)
+	lab.Assume("L1: a scripted http.RoundTripper stands in for http.Transport (transport errors after the request was handed over are the error values http.Transport reports: ECONNRESET read error, EOF, response-header timeout, context deadline); limiter on + active health checks on is not hosted in L1 (the balancer is built outside the bubble)")
 	lab.Assume("C09: a client address is the string the documented rule yields (X-Forwarded-For first element trimmed > X-Real-IP > RemoteAddr host); textual variants of one IP are different addresses")
+	lab.Assume("C09: 'admitted' is read off the client's side: a request is admitted iff it is not answered 429 (the circuit breaker, whose half-open refusal is also a 429, stays off)")
 	maxLen := lab.Scale(40, 60)
 	lab.Check(t, sub, 12000, 300000, func(rt *rapid.T) {
 		p := Params{Max: rapid.IntRange(1, 5).Draw(rt, "max")}
@@ -85,9 +112,17 @@ func TestC09EndToEnd(t *testing.T) {
 			ids = append(ids, identity{Addr: a, Class: class, CanRemote: canonicalIP(a), NoComma: !containsComma(a)})
 		}
 		n := rapid.IntRange(6, maxLen).Draw(rt, "n")
+		handlerS := rapid.SampledFrom([]int{1, 2, 4}).Draw(rt, "handler_timeout_s")
+		passive := rapid.IntRange(0, 3).Draw(rt, "passive") == 0
 
 		cfg := lab.BaseConfig(strategy, lab.Ones(nb))
 		cfg.RateLimit.Enabled, cfg.RateLimit.MaxTokens, cfg.RateLimit.RefillRate = true, p.Max, rs
+		cfg.Server.Timeouts.Handler = handlerS
+		if passive {
+			cfg.HealthChecks.Passive.Enabled = true
+			cfg.HealthChecks.Passive.UnhealthyThreshold = rapid.IntRange(1, 3).Draw(rt, "passive_threshold")
+			cfg.HealthChecks.Passive.UnhealthyTimeout = rapid.IntRange(1, 4).Draw(rt, "passive_timeout_s")
+		}
 		if err := cfg.Validate(); err != nil {
 			rt.Fatalf("harness: generated config rejected: %v", err)
 		}
@@ -97,20 +132,27 @@ func TestC09EndToEnd(t *testing.T) {
 			rt.Fatalf("harness: NewLoadBalancer: %v", err)
 		}
 		defer lb.Stop()
-		fn := lab.NewFakeNet()
-		fn.Install(lb)
+		fnet := newFaultNet(lb)
+		kindsSeen := map[string]bool{}
+		var setup []string
 		for bi := 0; bi < nb; bi++ {
-			fn.Set(lab.BackendHost(bi), rapid.SampledFrom([]lab.Behaviour{lab.Good, lab.Good, lab.Status4xx, lab.Status5xx}).Draw(rt, "behaviour"))
+			k := drawBackendKind(rt, "behaviour")
+			fnet.set(lab.BackendHost(bi), k)
+			setup = append(setup, k.Name)
 		}
 
 		var evs []e2eEvent
 		hist := make([][]Call, ni)
+		fwdAt := make([][]time.Duration, ni)
+		failedExchange := make([]bool, ni) // an admitted request of this identity was handed to a backend and got no response head
+		refusedAfterFail := false
 		hows := make([]map[string]bool, ni)
 		for i := range hows {
 			hows[i] = map[string]bool{}
 		}
 		var viol string
-		ambiguous, uniq := 0, 0
+		ambiguous, uniq, rid := 0, 0, 0
+		parallelBursts := 0
 		rapid.SyncTest(rt, func(rt *rapid.T) {
 			start := time.Now()
 			refused := false
@@ -128,9 +170,18 @@ func TestC09EndToEnd(t *testing.T) {
 					refused = false
 					continue
 				}
+				if kind >= 93 {
+					bi := rapid.IntRange(0, nb-1).Draw(rt, "flip_backend")
+					k := drawBackendKind(rt, "flip_to")
+					fnet.set(lab.BackendHost(bi), k)
+					evs = append(evs, e2eEvent{Flip: fmt.Sprintf("%s:=%s", lab.BackendName(bi), k.Name)})
+					continue
+				}
 				cnt := 1
+				parallel := false
 				if kind >= 60 {
 					cnt = rapid.IntRange(1, p.Max+2).Draw(rt, "burst")
+					parallel = cnt > 1 && rapid.IntRange(0, 2).Draw(rt, "parallel") == 0
 				}
 				id := rapid.IntRange(0, ni-1).Draw(rt, "id")
 				if pending >= 0 && rapid.IntRange(0, 2).Draw(rt, "back") > 0 {
@@ -140,7 +191,9 @@ func TestC09EndToEnd(t *testing.T) {
 				if rapid.IntRange(0, 24).Draw(rt, "ambiguous") == 0 {
 					id = -1
 				}
-				for q := 0; q < cnt && viol == ""; q++ {
+				// all draws of the burst first: the requests of a concurrent burst are built before any runs
+				batch := make([]*e2eReq, 0, cnt)
+				for q := 0; q < cnt; q++ {
 					r := &e2eReq{ID: id}
 					port := rapid.IntRange(1024, 65535).Draw(rt, "port")
 					// peer address used when the identity travels in a header: the shared proxy, or — to
@@ -192,6 +245,11 @@ func TestC09EndToEnd(t *testing.T) {
 					if got, ok := Attributed(r.XFF, r.XRI, r.Remote); id >= 0 && (!ok || got != ids[id].Addr) || id < 0 && ok {
 						rt.Fatalf("harness: presentation %+v attributed to %q/%v, intended identity %d", r, got, ok, id)
 					}
+					rid++
+					r.rid = fmt.Sprintf("r%d", rid)
+					batch = append(batch, r)
+				}
+				run := func(r *e2eReq) {
 					req := lab.Request("GET", "/x", r.Remote, nil)
 					for _, l := range r.XFF {
 						req.Header.Add("X-Forwarded-For", l)
@@ -199,28 +257,72 @@ func TestC09EndToEnd(t *testing.T) {
 					if r.XRI != "" {
 						req.Header.Set("X-Real-IP", r.XRI)
 					}
-					before := fn.Arrivals()
-					status, _, _, _ := lab.Serve(lb, req)
-					r.Status, r.Fwd, r.At = status, fn.Arrivals()-before, time.Since(start).String()
+					req.Header.Set(ridHeader, r.rid)
+					r.at = time.Since(start) // the limiter decides when the request arrives
+					r.At = r.at.String()
+					r.Status, _, _, r.Aborted = lab.Serve(lb, req)
+					r.Fwd, r.Backend = fnet.arrivals(r.rid)
+				}
+				if parallel {
+					parallelBursts++
+					var wg sync.WaitGroup
+					for _, r := range batch {
+						wg.Add(1)
+						go func(r *e2eReq) { defer wg.Done(); run(r) }(r)
+					}
+					wg.Wait()
+					// the requests of a concurrent burst reach the limiter in an order the client does not
+					// control: read in the order most favourable to the proxy (admitted ones first)
+					sort.SliceStable(batch, func(a, b int) bool { return batch[a].Status != 429 && batch[b].Status == 429 })
+				} else {
+					for _, r := range batch {
+						run(r)
+					}
+				}
+				for _, r := range batch {
+					r.Parallel = parallel
 					evs = append(evs, e2eEvent{Req: r})
+					if r.Backend != "" {
+						kindsSeen[r.Backend] = true
+					}
+					if viol != "" {
+						continue
+					}
 					switch {
-					case status == 429 && r.Fwd != 0:
-						viol = fmt.Sprintf("request answered 429 was forwarded to a backend %d time(s)", r.Fwd)
-					case status != 429 && r.Fwd != 1:
-						viol = fmt.Sprintf("request answered %d (not 429) reached a backend %d times, expected exactly once", status, r.Fwd)
+					case r.Status == 429 && r.Fwd != 0:
+						viol = fmt.Sprintf("request %s answered 429 was forwarded to a backend %d time(s)", r.rid, r.Fwd)
+					case r.Status != 429 && r.Fwd > 1:
+						viol = fmt.Sprintf("request %s answered %d (not 429) reached a backend %d times, expected exactly once", r.rid, r.Status, r.Fwd)
+					case r.Status != 429 && r.Fwd == 0 && !(passive && r.Status == 503):
+						viol = fmt.Sprintf("request %s answered %d (not 429) reached no backend, expected exactly one", r.rid, r.Status)
 					}
 					if id < 0 {
 						ambiguous++
 						continue
 					}
 					hows[id][r.How] = true
-					hist[id] = append(hist[id], Call{T: time.Since(start), Admitted: status != 429})
-					if status == 429 {
+					hist[id] = append(hist[id], Call{T: r.at, Admitted: r.Status != 429})
+					if r.Fwd > 0 {
+						fwdAt[id] = append(fwdAt[id], r.at)
+						for _, k := range backendKinds {
+							if k.Name == r.Backend && k.NoHead {
+								failedExchange[id] = true
+							}
+						}
+					}
+					if r.Status == 429 {
 						refused, pending = true, id
+						if failedExchange[id] {
+							refusedAfterFail = true
+						}
 					}
 				}
 			}
+			fnet.fn.ReleaseAll()
 		})
+		if viol == "" && fnet.total != fnet.fn.Arrivals() {
+			rt.Fatalf("harness: fault layer saw %d arrivals, the fake network %d", fnet.total, fnet.fn.Arrivals())
+		}
 		nt := false
 		labels := []string{strategy, fmt.Sprintf("max%d", p.Max)}
 		if ni > 1 {
@@ -229,12 +331,27 @@ func TestC09EndToEnd(t *testing.T) {
 		if ambiguous > 0 {
 			labels = append(labels, "has-xff-first-element-empty")
 		}
+		if passive {
+			labels = append(labels, "passive-health-checks")
+		}
+		if parallelBursts > 0 {
+			labels = append(labels, "concurrent-burst")
+		}
+		if refusedAfterFail {
+			labels = append(labels, "refused-after-failed-exchange")
+		}
+		for _, k := range keysOf(kindsSeen) {
+			labels = append(labels, "backend-"+k)
+		}
 		anyRefused, idle := false, false
 		howSeen := map[string]bool{}
 		for i := range hist {
 			v, st := CheckClient(p, hist[i])
 			if v != "" && viol == "" {
-				viol = fmt.Sprintf("attributed address %q (identity %d, presented as %v): %s", ids[i].Addr, i, keysOf(hows[i]), v)
+				viol = fmt.Sprintf("attributed address %q (identity %d, presented as %v), requests not answered 429: %s", ids[i].Addr, i, keysOf(hows[i]), v)
+			}
+			if v := CheckForwarded(p, fwdAt[i]); v != "" && viol == "" {
+				viol = fmt.Sprintf("attributed address %q (identity %d, presented as %v), requests that reached a backend: %s", ids[i].Addr, i, keysOf(hows[i]), v)
 			}
 			if st.ReadmittedAfterAdvance && len(hows[i]) >= 2 {
 				nt = true
@@ -256,9 +373,9 @@ func TestC09EndToEnd(t *testing.T) {
 		if idle {
 			labels = append(labels, "idle-clause-exercised")
 		}
-		sub.Case(map[string]any{"p": p, "strategy": strategy, "backends": nb, "identities": ids, "events": evs}, nt, labels...)
+		sub.Case(map[string]any{"p": p, "strategy": strategy, "backends": setup, "handler_timeout_s": handlerS, "passive": passive, "identities": ids, "events": evs}, nt, labels...)
 		if viol != "" {
-			rt.Fatalf("max_tokens=%d refill=%v strategy=%s identities=%+v\nevents=%s\n%s", p.Max, p.R, strategy, ids, showEvents(evs), viol)
+			rt.Fatalf("max_tokens=%d refill=%v handler_timeout=%ds passive=%v strategy=%s backends=%v identities=%+v\nevents=%s\n%s", p.Max, p.R, handlerS, passive, strategy, setup, ids, showEvents(evs), viol)
 		}
 	})
 }
